@@ -474,3 +474,56 @@ func (e *enumSess) dirSlots(dfh []byte, atLeast int) int {
 	}
 	return atLeast
 }
+
+// enumAfterHistory (C13 after concurrent or directed histories): every
+// directory of the final tree is enumerated page by page with both procedures
+// at a quiescent moment; no name may come twice, every entry must be the
+// object LOOKUP finds under that name, and the enumeration must terminate.
+func enumAfterHistory(api API, dump []DumpEnt) (msgs []string, enums int) {
+	for _, de := range dump {
+		if de.Kind != KDir || de.FH == nil {
+			continue
+		}
+		for _, plus := range []bool{false, true} {
+			k := OpReaddir
+			if plus {
+				k = OpReaddirplus
+			}
+			seen := map[string]uint64{}
+			cookie := uint64(0)
+			enums++
+			for pg := 0; ; pg++ {
+				if pg > 5000 {
+					msgs = append(msgs, fmt.Sprintf("%s of %q does not end after 5000 pages", k, de.Path))
+					break
+				}
+				r := doOp(api, &Op{K: k, H: de.FH, Cookie: cookie, Count: 400, Dircount: 200})
+				if r.Stat != stOK {
+					msgs = append(msgs, fmt.Sprintf("%s of %q cookie %d: status %d", k, de.Path, cookie, r.Stat))
+					break
+				}
+				if len(r.Ents) == 0 && !r.Eof {
+					msgs = append(msgs, fmt.Sprintf("%s of %q cookie %d: neither an entry nor end-of-directory", k, de.Path, cookie))
+					break
+				}
+				for _, en := range r.Ents {
+					if id, dup := seen[en.Name]; dup {
+						msgs = append(msgs, fmt.Sprintf("%s of %q returns the name %s twice (file ids %d and %d)", k, de.Path, shortName(en.Name), id, en.Fileid))
+					}
+					seen[en.Name] = en.Fileid
+					lk := doOp(api, &Op{K: OpLookup, H: de.FH, Name: en.Name})
+					if lk.Stat != stOK {
+						msgs = append(msgs, fmt.Sprintf("%s of %q lists %s but LOOKUP gives status %d", k, de.Path, shortName(en.Name), lk.Stat))
+					} else if lk.HasAttr && lk.Fileid != en.Fileid {
+						msgs = append(msgs, fmt.Sprintf("%s of %q lists %s with file id %d, the named object has %d", k, de.Path, shortName(en.Name), en.Fileid, lk.Fileid))
+					}
+					cookie = en.Cookie
+				}
+				if r.Eof {
+					break
+				}
+			}
+		}
+	}
+	return msgs, enums
+}
